@@ -298,6 +298,7 @@ PROPS["C11"] = dict(
 )
 
 PROPS["C14"] = dict(
+    asan=True,
     lean_targets=["SJ.Props.C14", "SJ.Audit.C14"],
     configs=dict(quick=["d"], thorough=["d", "ud", "ap"]),
     gen_keys=["de."],
